@@ -1,2 +1,3 @@
 import Driver.Proto
 import Driver.Rules
+import Driver.Exhaust
